@@ -48,3 +48,20 @@ Proof.
   - intros. apply flux_prefactor_increasing; try assumption; apply Hk.
 Qed.
 Print Assumptions C20_flux.
+
+(* vacuum window (1D Snowing model): the evaporative heat flux is exactly zero outside the open window, and a VISF
+   step outside the window IS the shelf step, in the cooling and in the solidification stage *)
+From Snow Require Import Num NumR Sn1D SnProofs.
+Theorem C20_evaporation_only_inside_the_window :
+  forall (P : @p1d R) T W Tsh t ts td flux dHe,
+  (t <= ts * 3600 \/ (ts + td) * 3600 <= t ->
+     q_evap Rops true t ts td flux dHe = 0
+     /\ cool_step Rops P T Tsh (q_evap Rops true t ts td flux dHe) = cool_step Rops P T Tsh (q_evap Rops false t ts td flux dHe)
+     /\ solid_step Rops P T W Tsh (q_evap Rops true t ts td flux dHe) = solid_step Rops P T W Tsh (q_evap Rops false t ts td flux dHe))
+  /\ (ts * 3600 < t < (ts + td) * 3600 -> q_evap Rops true t ts td flux dHe = - flux * dHe).
+Proof.
+  intros. split.
+  - intros Ho. split; [apply q_evap_outside; tauto|]. apply visf_step_equals_shelf_step_outside_window. exact Ho.
+  - apply q_evap_inside.
+Qed.
+Print Assumptions C20_evaporation_only_inside_the_window.
